@@ -239,8 +239,8 @@ func registerNatives2(e *Engine) {
 		return Tuple{(*Iface)(nil), ex.tb().False()}
 	}
 	n["(*sync.Map).Store"] = func(ex *Exec, site ssa.Instruction, args []Value) Value {
-		p := args[0].(Ptr)
-		ex.checkWritable(p.Obj.Frozen, p.Obj.ID, "sync.Map.Store into "+p.Obj.describe())
+		_ = args[0].(Ptr)
+		// (sync.Map, sync.Pool: goroutine-safe by contract - not a write the frozen-memory check is about)
 		l := mapEntries(ex, args[0])
 		if i := find(ex, l, args[1]); i >= 0 {
 			(*l)[i].v = args[2]
@@ -250,12 +250,11 @@ func registerNatives2(e *Engine) {
 		return nil
 	}
 	n["(*sync.Map).LoadOrStore"] = func(ex *Exec, site ssa.Instruction, args []Value) Value {
-		p := args[0].(Ptr)
+		_ = args[0].(Ptr)
 		l := mapEntries(ex, args[0])
 		if i := find(ex, l, args[1]); i >= 0 {
 			return Tuple{(*l)[i].v, ex.tb().True()}
 		}
-		ex.checkWritable(p.Obj.Frozen, p.Obj.ID, "sync.Map.LoadOrStore into "+p.Obj.describe())
 		*l = append(*l, entry{args[1], args[2]})
 		return Tuple{args[2], ex.tb().False()}
 	}
@@ -289,7 +288,6 @@ func registerNatives2(e *Engine) {
 	}
 	n["(*sync.Pool).Put"] = func(ex *Exec, site ssa.Instruction, args []Value) Value {
 		p := args[0].(Ptr)
-		ex.checkWritable(p.Obj.Frozen, p.Obj.ID, "sync.Pool.Put into "+p.Obj.describe())
 		if p.Obj.Ghost == nil {
 			p.Obj.Ghost = map[string]Value{}
 		}
